@@ -39,6 +39,7 @@ struct Res7 {
     obs: Vec<Obs>,
     reached_end: bool,
     violated: bool,
+    viol: String,
 }
 
 fn run_script(f: &TestFile, kind: Kind, how: Chunking, script: Script, rng: &mut Rng, extra_polls: usize) -> Option<Res7> {
@@ -65,6 +66,7 @@ fn run_script(f: &TestFile, kind: Kind, how: Chunking, script: Script, rng: &mut
     let cap = (100 + 8 * rc.len as usize).min(400_000);
     let mut reached_end = false;
     let mut violated = false;
+    let mut viol = String::new();
     let switch_at = rng.below(rc.len + 1);
     while ops.len() < cap {
         let op = match kind {
@@ -134,6 +136,7 @@ fn run_script(f: &TestFile, kind: Kind, how: Chunking, script: Script, rng: &mut
         if let Some(v) = rc.step(&op, &o, avail_before) {
             emit_viol(f, kind, false, &tag, &ops, &obs, ops.len() - 1, &v);
             violated = true;
+            viol = v.key.clone();
             break;
         }
         // end-of-stream signal?
@@ -153,6 +156,7 @@ fn run_script(f: &TestFile, kind: Kind, how: Chunking, script: Script, rng: &mut
                     let v = Verdict { key: format!("{}-premature-end", kind.short()), desc: format!("end of stream signalled after {} of {} units", rc.pos(), rc.len) };
                     emit_viol(f, kind, false, &tag, &ops, &obs, ops.len() - 1, &v);
                     violated = true;
+                    viol = v.key.clone();
                     break;
                 }
             }
@@ -162,7 +166,7 @@ fn run_script(f: &TestFile, kind: Kind, how: Chunking, script: Script, rng: &mut
             }
         }
     }
-    Some(Res7 { ops, obs, reached_end, violated })
+    Some(Res7 { ops, obs, reached_end, violated, viol })
 }
 
 fn main() {
@@ -223,7 +227,7 @@ fn main() {
                     } else if !r.violated {
                         bump("cap_hit", 1);
                     }
-                    emit_case(f, kind, false, &how.tag(), &r.ops, &r.obs, &script.tag());
+                    emit_case(f, kind, false, &how.tag(), &r.ops, &r.obs, &script.tag(), &r.viol);
                 }
             }
         }
@@ -245,10 +249,97 @@ fn main() {
                 if r.reached_end {
                     bump("reached_end", 1);
                 }
-                emit_case(f, kind, false, &how.tag(), &r.ops, &r.obs, &format!("split-{}", script.tag()));
+                emit_case(f, kind, false, &how.tag(), &r.ops, &r.obs, &format!("split-{}", script.tag()), &r.viol);
             }
         }
     }
+    // ---- (c) damaged streams (outside C07's statement: no verdicts, model correspondence only):
+    // a frame that fails its CRC-16 is reported as an error; the history goes on polling
+    let mut stale_after_error = 0u64;
+    for (fi, f) in files.iter().enumerate() {
+        if !thorough && fi % 2 == 1 {
+            continue;
+        }
+        let n = f.frame_lens.len();
+        for k in [0usize, n / 2, n - 1] {
+            if k >= n || (k > 0 && k == n / 2 && n / 2 == 0) {
+                continue;
+            }
+            let g = damage_frame(f, k);
+            g.emit();
+            bump("damaged_files", 1);
+            let at: usize = f.frame_lens[..k].iter().sum();
+            for &kind in KINDS {
+                for variant in 0..2 {
+                    let Ok(mut drv) = Drv::open(kind, &g.bytes, Chunking::Whole, false) else { continue };
+                    let mut ops = vec![];
+                    let mut obs: Vec<Obs> = vec![];
+                    let mut avail = 0usize;
+                    let mut errs = 0;
+                    let mut ends = 0;
+                    let mut after_err = false;
+                    let iter = kind == Kind::Samples && variant == 1;
+                    while ops.len() < 3 * n + 12 && errs < 4 && ends < 2 {
+                        let op = if iter {
+                            if ops.len() > 40 * n { break } else { Op::Next }
+                        } else if avail > 0 {
+                            Op::Consume(if variant == 0 { avail } else { 1 + rng.below(avail as u64) as usize })
+                        } else if kind == Kind::Channels || variant == 0 || ops.len() % 3 == 0 {
+                            Op::Fill
+                        } else {
+                            Op::Read(1 + rng.below(2 * (f.frame_lens[0] * f.ch * f.bytes_per_sample()) as u64) as usize)
+                        };
+                        let o = drv.apply(&op);
+                        match (&op, &o) {
+                            (Op::Fill, Obs::Bytes(b)) => avail = b.len(),
+                            (Op::Fill, Obs::Samples(x)) => avail = x.len(),
+                            (Op::Fill, Obs::Chans(c)) => avail = c.first().map(|x| x.len()).unwrap_or(0),
+                            (Op::Consume(k), _) => avail = avail.saturating_sub(*k),
+                            _ => avail = 0,
+                        }
+                        // is the frame that failed its checksum handed out after the error was reported?
+                        if after_err {
+                            let stale = match &o {
+                                Obs::Chans(c) if !c.is_empty() && !c[0].is_empty() => {
+                                    let l = c[0].len().min(f.frame_lens[k]);
+                                    let off = f.frame_lens[k] - l;
+                                    (0..f.ch).all(|ci| c[ci].len() <= f.frame_lens[k] && (0..c[ci].len()).all(|i| c[ci][i] == f.pcm[(at + off + i) * f.ch + ci]))
+                                        && (k + 1 >= n || c[0][..] != f.truth_channels()[0][at + f.frame_lens[k]..(at + f.frame_lens[k] + c[0].len()).min(f.pcm_frames() as usize)])
+                                }
+                                _ => false,
+                            };
+                            if stale {
+                                stale_after_error += 1;
+                                if stale_after_error <= 2 {
+                                    note(&format!("{} reader, file {} [{}]: after the error for frame {} the next call handed out that frame's samples: ops {} obs {}", kind.tag(), g.id, g.desc, k,
+                                        ops.iter().map(|o: &Op| o.text()).collect::<Vec<_>>().join(";"), trunc(&o.text())));
+                                }
+                            }
+                            after_err = false;
+                        }
+                        match &o {
+                            Obs::Err(_) => {
+                                errs += 1;
+                                after_err = true;
+                            }
+                            Obs::Panic(_) => errs = 99,
+                            Obs::Bytes(b) if b.is_empty() && !matches!(op, Op::Read(0)) => ends += 1,
+                            Obs::Samples(x) if x.is_empty() && !matches!(op, Op::Read(0)) => ends += 1,
+                            Obs::Chans(c) if c.iter().all(|x| x.is_empty()) => ends += 1,
+                            Obs::Item(None) => ends += 1,
+                            _ => {}
+                        }
+                        ops.push(op);
+                        obs.push(o);
+                    }
+                    bump("damaged_histories", 1);
+                    bump("ops", ops.len() as u64);
+                    emit_case(&g, kind, false, "whole", &ops, &obs, "damaged", "");
+                }
+            }
+        }
+    }
+    bump("damaged.stale_frame_after_error", stale_after_error);
     bump("files", (files.len() + small.len()) as u64);
     let mut nv = 0u64;
     for (k, n) in viol_counts() {
